@@ -2,7 +2,39 @@
 
 package main
 
+// Wire-format cases: the real *JsonArrayParser of each module against Model/Json.v.
+//
+//   stream A  Go rule structs -> encoding/json Marshal -> the real parser; the model's decoder is
+//             run on the bytes Go produced (Coq side) and must yield the field values the parser yields
+//   stream B  the model's encoder output (a Go replica here; Coq checks `encode sch l = payload`)
+//             -> the real parser -> must yield the rules it describes; also delivered to a real
+//             handler + rule manager: exactly the valid rules must be in force
+//   stream C  the same rules written "by hand": whitespace, other member order, other key case,
+//             omitted default members, unknown members with nested values, duplicate keys, null members
+//   stream D  malformed / corner payloads: truncations, wrongly typed members, out-of-range and
+//             non-integer literals, wrong documents, byte mutations, payloads outside the model's
+//             byte subset (only counted)
+//
+// The monitor knows by construction what each payload describes (or that it is undecodable /
+// empty) and states that directly on the parser's result; it never looks at the Coq model.
+
 import (
+	"encoding/json"
+	"fmt"
+	"math"
+	"math/big"
+	"reflect"
+	"sort"
+	"strconv"
+	"strings"
+
+	cb "github.com/alibaba/sentinel-golang/core/circuitbreaker"
+	"github.com/alibaba/sentinel-golang/core/flow"
+	"github.com/alibaba/sentinel-golang/core/hotspot"
+	"github.com/alibaba/sentinel-golang/core/isolation"
+	"github.com/alibaba/sentinel-golang/core/system"
+	"github.com/alibaba/sentinel-golang/ext/datasource"
+
 	"vh/internal/cli"
 	"vh/internal/emit"
 	"vh/internal/rng"
@@ -12,4 +44,1216 @@ const wireBase = 300000
 
 func wirePreface() string { return "" }
 
-func runWire(a cli.Args, root *rng.R, rep *emit.Report, sh *emit.Shards, only int) {}
+// ---- the wire schemas, as Model/Json.v states them (Coq re-checks every encoded payload) ----------
+
+type wtype int
+
+const (
+	tStr wtype = iota
+	tInt
+	tNum
+	tItems
+)
+
+type wfield struct {
+	Name   string
+	Ty     wtype
+	Lo, Hi *big.Int
+}
+
+func bi(s string) *big.Int { v, _ := new(big.Int).SetString(s, 10); return v }
+
+var (
+	i32lo, i32hi = bi("-2147483648"), bi("2147483647")
+	u32hi        = bi("4294967295")
+	i64lo, i64hi = bi("-9223372036854775808"), bi("9223372036854775807")
+	u64hi        = bi("18446744073709551615")
+	zero         = bi("0")
+)
+
+func fS(n string) wfield   { return wfield{Name: n, Ty: tStr} }
+func fN(n string) wfield   { return wfield{Name: n, Ty: tNum} }
+func fI32(n string) wfield { return wfield{n, tInt, i32lo, i32hi} }
+func fU32(n string) wfield { return wfield{n, tInt, zero, u32hi} }
+func fI64(n string) wfield { return wfield{n, tInt, i64lo, i64hi} }
+func fU64(n string) wfield { return wfield{n, tInt, zero, u64hi} }
+
+var wireSchemas = [5][]wfield{
+	{fS("id"), fS("resource"), fI32("tokenCalculateStrategy"), fI32("controlBehavior"), fN("threshold"),
+		fI32("relationStrategy"), fS("refResource"), fU32("maxQueueingTimeMs"), fU32("warmUpPeriodSec"),
+		fU32("warmUpColdFactor"), fU32("statIntervalInMs"), fI64("lowMemUsageThreshold"), fI64("highMemUsageThreshold"),
+		fI64("memLowWaterMarkBytes"), fI64("memHighWaterMarkBytes")},
+	{fS("id"), fU32("metricType"), fN("triggerCount"), fI32("strategy")},
+	{fS("id"), fS("resource"), fU32("strategy"), fU32("retryTimeoutMs"), fU64("minRequestAmount"), fU32("statIntervalMs"),
+		fU32("statSlidingWindowBucketCount"), fU64("maxAllowedRtMs"), fN("threshold"), fU64("probeNum")},
+	{fS("id"), fS("resource"), fI32("metricType"), fI32("controlBehavior"), fI64("paramIndex"), fS("paramKey"),
+		fI64("threshold"), fI64("maxQueueingTimeMs"), fI64("burstCount"), fI64("durationInSec"), fI64("paramsMaxCapacity"),
+		{Name: "specificItems", Ty: tItems}},
+	{fS("id"), fS("resource"), fI32("metricType"), fU32("threshold")},
+}
+
+type witem struct {
+	Kind int64  `json:"valKind"`
+	Str  string `json:"valStr"`
+	Thr  int64  `json:"threshold"`
+}
+
+// wval is one field value of a wire rule
+type wval struct {
+	S     string   `json:"s,omitempty"`
+	I     *big.Int `json:"i,omitempty"`
+	Lit   string   `json:"lit,omitempty"`
+	Items []witem  `json:"items,omitempty"`
+}
+
+type wrule []wval
+
+// ---- Go rule structs <-> field values ---------------------------------------------------------------
+
+func (v wval) i64() int64   { return v.I.Int64() }
+func (v wval) u64() uint64  { return v.I.Uint64() }
+func (v wval) f64() float64 { f, _ := strconv.ParseFloat(v.Lit, 64); return f }
+
+// refConvItems: what hotspot_rule_converter.go documents for SpecificValue, written independently:
+// kind 0 int (Atoi), 1 string, 2 bool (ParseBool), 3 float64 rounded to 5 decimals; anything that
+// does not parse, and any other kind, is skipped; a later item with an equal key replaces the earlier.
+func refFloatKey(s string) (float64, bool) {
+	v, err := strconv.ParseFloat(s, 64)
+	if err != nil {
+		return 0, false
+	}
+	v2, err := strconv.ParseFloat(strconv.FormatFloat(v, 'f', 5, 64), 64)
+	if err != nil {
+		return 0, false
+	}
+	return v2, true
+}
+
+func refConvItems(items []witem) map[interface{}]int64 {
+	out := map[interface{}]int64{}
+	for _, it := range items {
+		switch it.Kind {
+		case 0:
+			if v, err := strconv.Atoi(it.Str); err == nil {
+				out[v] = it.Thr
+			}
+		case 1:
+			out[it.Str] = it.Thr
+		case 2:
+			if v, err := strconv.ParseBool(it.Str); err == nil {
+				out[v] = it.Thr
+			}
+		case 3:
+			if v, ok := refFloatKey(it.Str); ok {
+				out[v] = it.Thr
+			}
+		}
+	}
+	return out
+}
+
+// goRule builds the module's rule struct from field values (the rule "described").  For hotspot,
+// wire=true gives the datasource.HotspotRule that is marshalled, wire=false the hotspot.Rule expected.
+func goRule(mod int, r wrule, wire bool) interface{} {
+	switch mod {
+	case 0:
+		return &flow.Rule{ID: r[0].S, Resource: r[1].S, TokenCalculateStrategy: flow.TokenCalculateStrategy(r[2].i64()),
+			ControlBehavior: flow.ControlBehavior(r[3].i64()), Threshold: r[4].f64(), RelationStrategy: flow.RelationStrategy(r[5].i64()),
+			RefResource: r[6].S, MaxQueueingTimeMs: uint32(r[7].u64()), WarmUpPeriodSec: uint32(r[8].u64()),
+			WarmUpColdFactor: uint32(r[9].u64()), StatIntervalInMs: uint32(r[10].u64()), LowMemUsageThreshold: r[11].i64(),
+			HighMemUsageThreshold: r[12].i64(), MemLowWaterMarkBytes: r[13].i64(), MemHighWaterMarkBytes: r[14].i64()}
+	case 1:
+		return &system.Rule{ID: r[0].S, MetricType: system.MetricType(r[1].u64()), TriggerCount: r[2].f64(),
+			Strategy: system.AdaptiveStrategy(r[3].i64())}
+	case 2:
+		return &cb.Rule{Id: r[0].S, Resource: r[1].S, Strategy: cb.Strategy(r[2].u64()), RetryTimeoutMs: uint32(r[3].u64()),
+			MinRequestAmount: r[4].u64(), StatIntervalMs: uint32(r[5].u64()), StatSlidingWindowBucketCount: uint32(r[6].u64()),
+			MaxAllowedRtMs: r[7].u64(), Threshold: r[8].f64(), ProbeNum: r[9].u64()}
+	case 3:
+		if wire {
+			var items []datasource.SpecificValue
+			for _, it := range r[11].Items {
+				items = append(items, datasource.SpecificValue{ValKind: datasource.ParamKind(it.Kind), ValStr: it.Str, Threshold: it.Thr})
+			}
+			return &datasource.HotspotRule{ID: r[0].S, Resource: r[1].S, MetricType: hotspot.MetricType(r[2].i64()),
+				ControlBehavior: hotspot.ControlBehavior(r[3].i64()), ParamIndex: int(r[4].i64()), ParamKey: r[5].S,
+				Threshold: r[6].i64(), MaxQueueingTimeMs: r[7].i64(), BurstCount: r[8].i64(), DurationInSec: r[9].i64(),
+				ParamsMaxCapacity: r[10].i64(), SpecificItems: items}
+		}
+		return &hotspot.Rule{ID: r[0].S, Resource: r[1].S, MetricType: hotspot.MetricType(r[2].i64()),
+			ControlBehavior: hotspot.ControlBehavior(r[3].i64()), ParamIndex: int(r[4].i64()), ParamKey: r[5].S,
+			Threshold: r[6].i64(), MaxQueueingTimeMs: r[7].i64(), BurstCount: r[8].i64(), DurationInSec: r[9].i64(),
+			ParamsMaxCapacity: r[10].i64(), SpecificItems: refConvItems(r[11].Items)}
+	default:
+		return &isolation.Rule{ID: r[0].S, Resource: r[1].S, MetricType: isolation.MetricType(r[2].i64()), Threshold: uint32(r[3].u64())}
+	}
+}
+
+// gval is one field of a rule the parser returned (projected: strings, integers, float bits, map dump)
+type gval struct {
+	Ty   wtype
+	S    string
+	I    *big.Int
+	Bits uint64
+	Map  []string // sorted dump of a SpecificItems map, Coq syntax per entry
+}
+
+func gs(s string) gval   { return gval{Ty: tStr, S: s} }
+func gi(v int64) gval    { return gval{Ty: tInt, I: big.NewInt(v)} }
+func gu(v uint64) gval   { return gval{Ty: tInt, I: new(big.Int).SetUint64(v)} }
+func gf(v float64) gval  { return gval{Ty: tNum, Bits: math.Float64bits(v)} }
+func gm(m map[interface{}]int64) gval {
+	return gval{Ty: tItems, Map: dumpMap(m)}
+}
+
+func dumpMap(m map[interface{}]int64) []string {
+	out := []string{}
+	for k, t := range m {
+		var ks string
+		switch x := k.(type) {
+		case int:
+			ks = "KInt " + emit.Z(int64(x))
+		case string:
+			ks = "KStr " + coqBytes([]byte(x))
+		case bool:
+			ks = "KBool " + emit.B(x)
+		case float64:
+			ks = "KFlt " + strconv.FormatUint(math.Float64bits(x), 10)
+		default:
+			ks = fmt.Sprintf("KStr (B \"unexpected key type %T\"%%string)", k)
+		}
+		out = append(out, emit.Tuple(ks, emit.Z(t)))
+	}
+	sort.Strings(out)
+	return out
+}
+
+// fieldsOf projects a rule returned by the module's parser, in schema order.
+func fieldsOf(mod int, x interface{}) []gval {
+	switch mod {
+	case 0:
+		r := x.(*flow.Rule)
+		return []gval{gs(r.ID), gs(r.Resource), gi(int64(r.TokenCalculateStrategy)), gi(int64(r.ControlBehavior)), gf(r.Threshold),
+			gi(int64(r.RelationStrategy)), gs(r.RefResource), gu(uint64(r.MaxQueueingTimeMs)), gu(uint64(r.WarmUpPeriodSec)),
+			gu(uint64(r.WarmUpColdFactor)), gu(uint64(r.StatIntervalInMs)), gi(r.LowMemUsageThreshold), gi(r.HighMemUsageThreshold),
+			gi(r.MemLowWaterMarkBytes), gi(r.MemHighWaterMarkBytes)}
+	case 1:
+		r := x.(*system.Rule)
+		return []gval{gs(r.ID), gu(uint64(r.MetricType)), gf(r.TriggerCount), gi(int64(r.Strategy))}
+	case 2:
+		r := x.(*cb.Rule)
+		return []gval{gs(r.Id), gs(r.Resource), gu(uint64(r.Strategy)), gu(uint64(r.RetryTimeoutMs)), gu(r.MinRequestAmount),
+			gu(uint64(r.StatIntervalMs)), gu(uint64(r.StatSlidingWindowBucketCount)), gu(r.MaxAllowedRtMs), gf(r.Threshold), gu(r.ProbeNum)}
+	case 3:
+		r := x.(*hotspot.Rule)
+		return []gval{gs(r.ID), gs(r.Resource), gi(int64(r.MetricType)), gi(int64(r.ControlBehavior)), gi(int64(r.ParamIndex)),
+			gs(r.ParamKey), gi(r.Threshold), gi(r.MaxQueueingTimeMs), gi(r.BurstCount), gi(r.DurationInSec), gi(r.ParamsMaxCapacity),
+			gm(r.SpecificItems)}
+	default:
+		r := x.(*isolation.Rule)
+		return []gval{gs(r.ID), gs(r.Resource), gi(int64(r.MetricType)), gu(uint64(r.Threshold))}
+	}
+}
+
+// expectedFields: what the described rule's fields are (floats through strconv, items through refConvItems)
+func expectedFields(mod int, r wrule) []gval {
+	var out []gval
+	for i, f := range wireSchemas[mod] {
+		switch f.Ty {
+		case tStr:
+			out = append(out, gs(r[i].S))
+		case tInt:
+			out = append(out, gval{Ty: tInt, I: r[i].I})
+		case tNum:
+			out = append(out, gf(r[i].f64()))
+		default:
+			out = append(out, gm(refConvItems(r[i].Items)))
+		}
+	}
+	return out
+}
+
+func gvalEq(a, b gval) bool {
+	if a.Ty != b.Ty {
+		return false
+	}
+	switch a.Ty {
+	case tStr:
+		return a.S == b.S
+	case tInt:
+		return a.I.Cmp(b.I) == 0
+	case tNum:
+		return a.Bits == b.Bits
+	default:
+		return sameStrings(a.Map, b.Map)
+	}
+}
+
+func (g gval) String() string {
+	switch g.Ty {
+	case tStr:
+		return strconv.Quote(g.S)
+	case tInt:
+		return g.I.String()
+	case tNum:
+		return fmt.Sprintf("%v(bits %#x)", math.Float64frombits(g.Bits), g.Bits)
+	default:
+		return "map" + fmt.Sprint(g.Map)
+	}
+}
+
+// ---- Coq syntax ------------------------------------------------------------------------------------
+
+func coqBytes(b []byte) string {
+	plain := true
+	for _, c := range b {
+		if !(c >= 32 && c <= 126) && c != '\n' && c != '\t' {
+			plain = false
+		}
+	}
+	if plain {
+		return "(B " + emit.Str(string(b)) + ")"
+	}
+	var ns []string
+	for _, c := range b {
+		ns = append(ns, strconv.Itoa(int(c)))
+	}
+	return "(bytes_of " + emit.List(ns) + ")"
+}
+
+func coqBig(v *big.Int) string {
+	if v.Sign() < 0 {
+		return "(" + v.String() + ")"
+	}
+	return v.String()
+}
+
+func coqWrule(mod int, r wrule) string {
+	var fs []string
+	for i, f := range wireSchemas[mod] {
+		switch f.Ty {
+		case tStr:
+			fs = append(fs, "FStr "+coqBytes([]byte(r[i].S)))
+		case tInt:
+			fs = append(fs, "FInt "+coqBig(r[i].I))
+		case tNum:
+			fs = append(fs, "FNum "+coqBytes([]byte(r[i].Lit)))
+		default:
+			var is []string
+			for _, it := range r[i].Items {
+				is = append(is, emit.Tuple(emit.Z(it.Kind), coqBytes([]byte(it.Str)), emit.Z(it.Thr)))
+			}
+			fs = append(fs, "FItems "+emit.List(is))
+		}
+	}
+	return emit.List(fs)
+}
+
+func coqGval(g gval) string {
+	switch g.Ty {
+	case tStr:
+		return "GStr " + coqBytes([]byte(g.S))
+	case tInt:
+		return "GInt " + coqBig(g.I)
+	case tNum:
+		return "GFlt " + strconv.FormatUint(g.Bits, 10)
+	default:
+		return "GMap " + emit.List(g.Map)
+	}
+}
+
+// wobs is what the real parser did with a payload
+type wobs struct {
+	Class string   `json:"class"` // err | nil | val | panic
+	IsNil bool     `json:"nil_slice,omitempty"`
+	Rules [][]gval `json:"-"` // nil entry = nil element
+	Shown []string `json:"rules,omitempty"`
+}
+
+func coqObs(o wobs) string {
+	switch o.Class {
+	case "err":
+		return "GErr"
+	case "nil":
+		return "GNil"
+	case "panic":
+		return "GPanic"
+	}
+	var rs []string
+	for _, r := range o.Rules {
+		if r == nil {
+			rs = append(rs, "None")
+			continue
+		}
+		var fs []string
+		for _, g := range r {
+			fs = append(fs, coqGval(g))
+		}
+		rs = append(rs, "(Some "+emit.List(fs)+")")
+	}
+	return "(GRules " + emit.B(o.IsNil) + " " + emit.List(rs) + ")"
+}
+
+// ---- the byte subset of the model (replica of Json.in_subset; Coq re-checks the flag) -------------
+
+func isDigit(c byte) bool { return c >= '0' && c <= '9' }
+
+func inSubset(b []byte) bool {
+	for _, c := range b {
+		ok := (c >= 32 && c <= 126 && c != '\\') || c == ' ' || c == '\t' || c == '\n' || c == '\r'
+		if !ok {
+			return false
+		}
+	}
+	for i, c := range b {
+		if c == 'e' || c == 'E' {
+			j := i + 1
+			if j < len(b) && (b[j] == '+' || b[j] == '-') {
+				j++
+			}
+			n := 0
+			for j < len(b) && isDigit(b[j]) {
+				n++
+				j++
+			}
+			if n >= 3 {
+				return false
+			}
+		}
+	}
+	return true
+}
+
+// oracle tables: every maximal run of number characters that strconv.ParseFloat accepts, and for
+// every quoted string without escapes what the float kind of parseSpecificItems makes of it
+func oracleTables(b []byte) (ftab, itab string) {
+	fs := map[string]bool{"0": true}
+	isNum := func(c byte) bool { return isDigit(c) || c == '-' || c == '+' || c == '.' || c == 'e' || c == 'E' }
+	for i := 0; i < len(b); {
+		if !isNum(b[i]) {
+			i++
+			continue
+		}
+		j := i
+		for j < len(b) && isNum(b[j]) {
+			j++
+		}
+		fs[string(b[i:j])] = true
+		i = j
+	}
+	var fl []string
+	for s := range fs {
+		if v, err := strconv.ParseFloat(s, 64); err == nil {
+			fl = append(fl, emit.Tuple(coqBytes([]byte(s)), strconv.FormatUint(math.Float64bits(v), 10)))
+		}
+	}
+	sort.Strings(fl)
+	ss := map[string]bool{}
+	for i := 0; i < len(b); i++ {
+		if b[i] != '"' {
+			continue
+		}
+		j := i + 1
+		for j < len(b) && b[j] != '"' && b[j] != '\\' {
+			j++
+		}
+		if j < len(b) && b[j] == '"' {
+			ss[string(b[i+1:j])] = true
+			i = j
+		}
+	}
+	var il []string
+	for s := range ss {
+		if v, ok := refFloatKey(s); ok {
+			il = append(il, emit.Tuple(coqBytes([]byte(s)), "Some "+strconv.FormatUint(math.Float64bits(v), 10)))
+		} else {
+			il = append(il, emit.Tuple(coqBytes([]byte(s)), "None"))
+		}
+	}
+	sort.Strings(il)
+	return emit.List(fl), emit.List(il)
+}
+
+// ---- generation --------------------------------------------------------------------------------------
+
+var strPool = []string{"a", "b", "res c", "GET:/api/v1/users/{id}", "x.y-z_0", "", "q#1", "it's", "[1,2]", "{k:v}", "e123x", "UPPER lower", "  padded  ", "null", "true", "1e5"}
+var litPool = []string{"0", "1", "10", "2.5", "1e3", "-1", "100", "0.5", "0.1", "-0.5E-2", "123456789.125", "1e-7", "5e-324",
+	"1.7976931348623157e308", "-0", "0.000", "1E5", "12345678901234567890", "0.30000000000000004", "3.141592653589793", "1e21", "1e-7", "99.99"}
+
+func genInt(r *rng.R, f wfield, realistic bool) *big.Int {
+	if realistic || r.Chance(1, 2) {
+		small := []int64{0, 0, 1, 2, 3, 5, 10, 100, 1000, 3000}
+		v := big.NewInt(small[r.Intn(len(small))])
+		if f.Lo.Sign() < 0 && r.Chance(1, 6) {
+			v.Neg(v)
+		}
+		return v
+	}
+	switch r.Intn(4) {
+	case 0:
+		return new(big.Int).Set(f.Lo)
+	case 1:
+		return new(big.Int).Set(f.Hi)
+	case 2:
+		return new(big.Int).Sub(f.Hi, big.NewInt(int64(r.Intn(3))))
+	default:
+		span := new(big.Int).Sub(f.Hi, f.Lo)
+		v := new(big.Int).SetUint64(r.U64())
+		v.Mod(v, span)
+		return v.Add(v, f.Lo)
+	}
+}
+
+func genItems(r *rng.R) []witem {
+	n := r.Intn(5)
+	var out []witem
+	for i := 0; i < n; i++ {
+		kind := int64(r.Intn(6)) - 0
+		if r.Chance(1, 12) {
+			kind = r.PickI(-1, 7, 100)
+		}
+		var s string
+		switch kind {
+		case 0:
+			s = pickS(r, "7", "8", "x7", "-3", "+07", "007", "", "9223372036854775807", "9223372036854775808", "1 ", "1_0")
+		case 1:
+			s = pickS(r, "s", "t", "", "vip user", "7", "true")
+		case 2:
+			s = pickS(r, "true", "false", "maybe", "1", "0", "T", "F", "TRUE", "False", "t", "yes")
+		case 3:
+			s = pickS(r, "1.25", "2.000001", "2.000009", "NaN", "abc", "0", "-0", "-0.000001", "1e3", "Inf", ".5", "1.", "0x1p-2", "1e400", "7")
+		default:
+			s = "z"
+		}
+		out = append(out, witem{Kind: kind, Str: s, Thr: r.PickI(0, 1, 9, -1, 100, math.MaxInt64, math.MinInt64)})
+	}
+	return out
+}
+
+// genWrule: one rule; idx makes resources distinct within a list
+func genWrule(r *rng.R, mod, idx int) wrule {
+	realistic := r.Chance(1, 2)
+	var out wrule
+	for _, f := range wireSchemas[mod] {
+		switch f.Ty {
+		case tStr:
+			s := strPool[r.Intn(len(strPool))]
+			if f.Name == "resource" && s != "" {
+				s = fmt.Sprintf("%s/%d", s, idx)
+			}
+			if f.Name == "id" {
+				s = pickS(r, "", fmt.Sprintf("r%d", idx))
+			}
+			if (f.Name == "refResource" || f.Name == "paramKey") && r.Chance(2, 3) {
+				s = ""
+			}
+			out = append(out, wval{S: s})
+		case tInt:
+			out = append(out, wval{I: genInt(r, f, realistic)})
+		case tNum:
+			out = append(out, wval{Lit: litPool[r.Intn(len(litPool))]})
+		default:
+			if r.Chance(1, 3) {
+				out = append(out, wval{})
+			} else {
+				out = append(out, wval{Items: genItems(r)})
+			}
+		}
+	}
+	return out
+}
+
+func genWrules(r *rng.R, mod int) []wrule {
+	n := r.Intn(4)
+	var out []wrule
+	for i := 0; i < n; i++ {
+		out = append(out, genWrule(r, mod, i))
+	}
+	return out
+}
+
+// ---- rendering ---------------------------------------------------------------------------------------
+
+func renderItem(it witem) string {
+	return fmt.Sprintf(`{"valKind":%d,"valStr":"%s","threshold":%d}`, it.Kind, it.Str, it.Thr)
+}
+
+func renderVal(f wfield, v wval) string {
+	switch f.Ty {
+	case tStr:
+		return `"` + v.S + `"`
+	case tInt:
+		return v.I.String()
+	case tNum:
+		return v.Lit
+	default:
+		var is []string
+		for _, it := range v.Items {
+			is = append(is, renderItem(it))
+		}
+		return "[" + strings.Join(is, ",") + "]"
+	}
+}
+
+// modelEncode is a replica of Json.encode (compact, every schema member, schema order)
+func modelEncode(mod int, rs []wrule) string {
+	var objs []string
+	for _, r := range rs {
+		var ms []string
+		for i, f := range wireSchemas[mod] {
+			ms = append(ms, `"`+f.Name+`":`+renderVal(f, r[i]))
+		}
+		objs = append(objs, "{"+strings.Join(ms, ",")+"}")
+	}
+	return "[" + strings.Join(objs, ",") + "]"
+}
+
+func isDefault(f wfield, v wval) bool {
+	switch f.Ty {
+	case tStr:
+		return v.S == ""
+	case tInt:
+		return v.I.Sign() == 0
+	case tNum:
+		return v.Lit == "0"
+	default:
+		return len(v.Items) == 0
+	}
+}
+
+func ws(r *rng.R) string { return pickS(r, "", "", " ", "\n", "\t", "\r\n", "  ") }
+
+func foldKey(r *rng.R, k string) string {
+	switch r.Intn(6) {
+	case 0:
+		return strings.ToUpper(k)
+	case 1:
+		return strings.ToUpper(k[:1]) + k[1:]
+	case 2:
+		return strings.ToLower(k)
+	}
+	return k
+}
+
+var unknownMembers = []string{`"comment":{"x":[1,null,{"y":"z"}]}`, `"extra":true`, `"n":-1.5e3`, `"tags":["a","b"]`, `"nothing":null`, `"o":{}`, `"arr":[]`, `"nested":[[[]]]`}
+
+func humaniseItem(r *rng.R, it witem) string {
+	if it.Kind == 0 && it.Str == "" && it.Thr == 0 && r.Chance(1, 2) {
+		return "null"
+	}
+	ms := []string{}
+	if it.Kind != 0 || r.Chance(1, 2) {
+		ms = append(ms, fmt.Sprintf(`"%s"%s:%s%d`, foldKey(r, "valKind"), ws(r), ws(r), it.Kind))
+	}
+	if it.Str != "" || r.Chance(1, 2) {
+		ms = append(ms, fmt.Sprintf(`"%s":%s"%s"`, foldKey(r, "valStr"), ws(r), it.Str))
+	}
+	if it.Thr != 0 || r.Chance(1, 2) {
+		ms = append(ms, fmt.Sprintf(`"%s":%d`, foldKey(r, "threshold"), it.Thr))
+	}
+	if r.Chance(1, 4) {
+		ms = append(ms, unknownMembers[r.Intn(len(unknownMembers))])
+	}
+	p := r.Perm(len(ms))
+	var out []string
+	for _, i := range p {
+		out = append(out, ms[i])
+	}
+	return "{" + ws(r) + strings.Join(out, ws(r)+","+ws(r)) + ws(r) + "}"
+}
+
+// humanise writes the same rules the way a person or another serializer might
+func humanise(r *rng.R, mod int, rs []wrule) string {
+	var objs []string
+	for _, rule := range rs {
+		type mem struct {
+			text  string
+			after int // must come after member with this tag (-1 none)
+			tag   int
+		}
+		var ms []mem
+		for i, f := range wireSchemas[mod] {
+			v := rule[i]
+			if isDefault(f, v) && r.Chance(1, 2) {
+				if f.Ty == tItems && r.Chance(1, 2) {
+					ms = append(ms, mem{fmt.Sprintf(`"%s":%snull`, foldKey(r, f.Name), ws(r)), -1, -1})
+				}
+				continue
+			}
+			var val string
+			if f.Ty == tItems {
+				var is []string
+				for _, it := range v.Items {
+					is = append(is, humaniseItem(r, it))
+				}
+				val = "[" + ws(r) + strings.Join(is, ws(r)+","+ws(r)) + ws(r) + "]"
+			} else {
+				val = renderVal(f, v)
+			}
+			ms = append(ms, mem{fmt.Sprintf(`"%s"%s:%s%s`, foldKey(r, f.Name), ws(r), ws(r), val), -1, i})
+			if f.Ty != tItems && r.Chance(1, 6) { // an earlier occurrence of the same key with another value
+				var other string
+				switch f.Ty {
+				case tStr:
+					other = `"zz"`
+				case tInt:
+					other = pickS(r, "0", "1")
+				default:
+					other = "7.5"
+				}
+				ms = append(ms, mem{fmt.Sprintf(`"%s":%s`, foldKey(r, f.Name), other), -2, i})
+			}
+			if f.Ty != tItems && r.Chance(1, 8) { // null has no effect on a set field
+				ms = append(ms, mem{fmt.Sprintf(`"%s":null`, foldKey(r, f.Name)), -1, -1})
+			}
+		}
+		if r.Chance(1, 2) {
+			ms = append(ms, mem{unknownMembers[r.Intn(len(unknownMembers))], -1, -1})
+		}
+		p := r.Perm(len(ms))
+		ord := make([]mem, 0, len(ms))
+		for _, i := range p {
+			ord = append(ord, ms[i])
+		}
+		// an "earlier occurrence" (after == -2) must precede the real member with the same tag
+		for i := range ord {
+			if ord[i].after == -2 {
+				for j := 0; j < i; j++ {
+					if ord[j].tag == ord[i].tag && ord[j].after == -1 {
+						ord[i], ord[j] = ord[j], ord[i]
+						break
+					}
+				}
+			}
+		}
+		var ts []string
+		for _, m := range ord {
+			ts = append(ts, m.text)
+		}
+		objs = append(objs, "{"+ws(r)+strings.Join(ts, ws(r)+","+ws(r))+ws(r)+"}")
+	}
+	return ws(r) + "[" + ws(r) + strings.Join(objs, ws(r)+","+ws(r)) + ws(r) + "]" + ws(r)
+}
+
+// ---- cases ---------------------------------------------------------------------------------------------
+
+type wcase struct {
+	ID      int     `json:"id"`
+	Module  string  `json:"module"`
+	Mod     int     `json:"-"`
+	Stream  string  `json:"stream"`
+	Variant string  `json:"variant,omitempty"`
+	Payload string  `json:"payload"`
+	Hex     string  `json:"payload_hex,omitempty"`
+	Expect  string  `json:"expect"` // rules | err | nil | nilslice | unknown
+	Rules   []wrule `json:"described,omitempty"`
+	Nils    []int   `json:"nil_elements_at,omitempty"` // positions (in the final list) of null elements
+	encOf   bool
+}
+
+func genWire(r *rng.R, id int) wcase {
+	mod := r.Intn(5)
+	c := wcase{ID: id, Mod: mod, Module: []string{"flow", "system", "circuitbreaker", "hotspot", "isolation"}[mod]}
+	rs := genWrules(r, mod)
+	switch k := r.Intn(10); {
+	case k < 2: // A
+		c.Stream, c.Expect, c.Rules = "A-go-marshal", "rules", rs
+		var elems []interface{}
+		for i, x := range rs {
+			if r.Chance(1, 8) {
+				c.Nils = append(c.Nils, len(elems))
+				elems = append(elems, nilOf(mod))
+			}
+			_ = i
+			elems = append(elems, goRule(mod, x, true))
+		}
+		b, err := json.Marshal(elems)
+		if err != nil {
+			panic(err)
+		}
+		c.Payload = string(b)
+	case k < 4: // B
+		c.Stream, c.Expect, c.Rules, c.encOf = "B-model-encode", "rules", rs, true
+		c.Payload = modelEncode(mod, rs)
+	case k < 6: // C
+		c.Stream, c.Expect, c.Rules = "C-humanised", "rules", rs
+		c.Payload = humanise(r, mod, rs)
+	default:
+		genMalformed(r, &c, rs)
+	}
+	return c
+}
+
+func nilOf(mod int) interface{} {
+	switch mod {
+	case 0:
+		return (*flow.Rule)(nil)
+	case 1:
+		return (*system.Rule)(nil)
+	case 2:
+		return (*cb.Rule)(nil)
+	case 3:
+		return (*datasource.HotspotRule)(nil)
+	}
+	return (*isolation.Rule)(nil)
+}
+
+var wrongDocs = []string{`[1]`, `["x"]`, `[[]]`, `[true]`, `{"resource":"a"}`, `"str"`, `42`, `true`, `{}`, `[{"resource":"a"},7]`,
+	`[{"resource":"a"}] x`, `[{"resource":"a"},]`, `[{"resource":"a" "id":"b"}]`, `[{resource:"a"}]`, `[{"resource":"a",}]`,
+	`[{"id":1.2.3}]`, `[{"x":01}]`, `[{"x":+1}]`, `[{"x":.5}]`, `[{"x":1.}]`, `[{"x":--1}]`, `[{"x":1e}]`, `[{"x":0x10}]`, `[{"x":nul}]`,
+	`[{"x":True}]`, `[nulll]`, `[{"id":"a"}}`, `[{"id":"a"]`, " ", "\n\t ", `[`, `]`, `[{"id":"unterminated}]`, `[{"id":"a"}{"id":"b"}]`, `[,]`, `[{"":}]`}
+
+func genMalformed(r *rng.R, c *wcase, rs []wrule) {
+	mod := c.Mod
+	c.Stream = "D-malformed"
+	if len(rs) == 0 {
+		rs = []wrule{genWrule(r, mod, 0)}
+	}
+	base := modelEncode(mod, rs)
+	sch := wireSchemas[mod]
+	// re-render one rule list with field fi of rule 0 replaced by text
+	with := func(fi int, text string) string {
+		var objs []string
+		for ri, rule := range rs {
+			var ms []string
+			for i, f := range sch {
+				v := renderVal(f, rule[i])
+				if ri == 0 && i == fi {
+					v = text
+				}
+				ms = append(ms, `"`+f.Name+`":`+v)
+			}
+			objs = append(objs, "{"+strings.Join(ms, ",")+"}")
+		}
+		return "[" + strings.Join(objs, ",") + "]"
+	}
+	pickField := func(ty wtype) int {
+		var is []int
+		for i, f := range sch {
+			if f.Ty == ty {
+				is = append(is, i)
+			}
+		}
+		if len(is) == 0 {
+			return -1
+		}
+		return is[r.Intn(len(is))]
+	}
+	switch v := r.Intn(12); v {
+	case 0, 1:
+		c.Variant, c.Expect = "truncated", "err"
+		c.Payload = base[:1+r.Intn(len(base)-1)]
+	case 2:
+		c.Variant, c.Expect = "wrong-member-type", "err"
+		fi := r.Intn(len(sch))
+		var t string
+		switch sch[fi].Ty {
+		case tStr:
+			t = pickS(r, "5", "true", "[]", "{}", `["a"]`)
+		case tInt:
+			t = pickS(r, `"5"`, "true", "[1]", "{}")
+		case tNum:
+			t = pickS(r, `"1.5"`, "false", "[]", "{}")
+		default:
+			t = pickS(r, "5", `"x"`, "{}", "[1]", `["a"]`, `[{"valKind":"0"}]`, `[{"valStr":7}]`, `[{"threshold":1.5}]`, `[[]]`, "true")
+		}
+		c.Payload = with(fi, t)
+	case 3:
+		c.Variant, c.Expect = "int-out-of-range", "err"
+		fi := pickField(tInt)
+		if r.Bool() {
+			c.Payload = with(fi, new(big.Int).Add(sch[fi].Hi, big.NewInt(1)).String())
+		} else {
+			c.Payload = with(fi, new(big.Int).Sub(sch[fi].Lo, big.NewInt(1)).String())
+		}
+	case 4:
+		c.Variant, c.Expect = "int-not-an-integer", "err"
+		c.Payload = with(pickField(tInt), pickS(r, "1.5", "1e2", "1.0", "1E0", "0.0", "01", "+1", "1.", ".5", "-", "1e"))
+	case 5:
+		c.Variant = "minus-zero-integer"
+		fi := pickField(tInt)
+		c.Payload = with(fi, "-0")
+		if sch[fi].Lo.Sign() < 0 {
+			c.Expect = "rules"
+			c.Rules = cloneRules(rs)
+			c.Rules[0][fi] = wval{I: big.NewInt(0)}
+		} else {
+			c.Expect = "err"
+		}
+	case 6:
+		c.Variant = "document"
+		switch r.Intn(8) {
+		case 0:
+			c.Payload, c.Expect = "", "nil"
+		case 1:
+			c.Payload, c.Expect = pickS(r, "null", " null ", "null\n"), "nilslice"
+		case 2:
+			c.Payload, c.Expect, c.Rules = pickS(r, "[]", " [ ] ", "[\n]"), "rules", nil
+		case 3:
+			c.Payload, c.Expect, c.Rules, c.Nils = pickS(r, "[null]", "[ null ]"), "rules", nil, []int{0}
+		case 4:
+			c.Payload, c.Expect, c.Rules, c.Nils = "[null,null]", "rules", nil, []int{0, 1}
+		default:
+			c.Payload, c.Expect = wrongDocs[r.Intn(len(wrongDocs))], "err"
+		}
+	case 7:
+		c.Variant = "trailing"
+		if r.Bool() {
+			c.Payload, c.Expect = base+pickS(r, "x", "]", ",", "[]", "null", "0"), "err"
+		} else {
+			c.Payload, c.Expect, c.Rules = base+pickS(r, " ", "\n", " \t\r\n "), "rules", rs
+		}
+	case 8, 9:
+		c.Variant, c.Expect = "byte-mutation", "unknown"
+		b := []byte(base)
+		i := r.Intn(len(b))
+		ch := byte(32 + r.Intn(95))
+		switch r.Intn(3) {
+		case 0:
+			b[i] = ch
+		case 1:
+			b = append(b[:i], b[i+1:]...)
+		default:
+			b = append(b[:i], append([]byte{ch}, b[i:]...)...)
+		}
+		c.Payload = string(b)
+	case 10:
+		c.Variant, c.Expect = "outside-the-model-subset", "unknown"
+		si := pickField(tStr)
+		switch r.Intn(5) {
+		case 0:
+			c.Payload = with(si, `"aAb"`)
+		case 1:
+			c.Payload = with(si, `"tab\there"`)
+		case 2:
+			c.Payload = with(si, "\"caf\xc3\xa9\"")
+		case 3:
+			c.Payload = with(si, "\"del\x7f\"")
+		default:
+			if fi := pickField(tNum); fi >= 0 {
+				c.Payload = with(fi, pickS(r, "1e400", "-1e999", "1e-400"))
+			} else {
+				c.Payload = with(si, `"back\\slash"`)
+			}
+		}
+	default:
+		c.Variant = "element"
+		switch r.Intn(3) {
+		case 0: // a null element among the rules
+			c.Expect, c.Rules = "rules", rs
+			pos := r.Intn(len(rs) + 1)
+			c.Nils = []int{pos}
+			parts := strings.Split(strings.TrimSuffix(strings.TrimPrefix(modelEncodeSep(mod, rs), "\x00"), "\x00"), "\x00")
+			if len(rs) == 0 {
+				parts = nil
+			}
+			parts = append(parts[:pos], append([]string{"null"}, parts[pos:]...)...)
+			c.Payload = "[" + strings.Join(parts, ",") + "]"
+		case 1:
+			c.Expect = "err"
+			c.Payload = base[:len(base)-1] + "," + pickS(r, "7", `"x"`, "[]", "true") + "]"
+		default: // the empty object: every field at its zero value
+			c.Expect = "rules"
+			c.Rules = append(cloneRules(rs), zeroRule(mod))
+			c.Payload = base[:len(base)-1] + ",{}]"
+		}
+	}
+}
+
+// modelEncodeSep: the encoded rule objects joined by NUL (to splice elements in)
+func modelEncodeSep(mod int, rs []wrule) string {
+	var objs []string
+	for _, r := range rs {
+		s := modelEncode(mod, []wrule{r})
+		objs = append(objs, s[1:len(s)-1])
+	}
+	return strings.Join(objs, "\x00")
+}
+
+func cloneRules(rs []wrule) []wrule {
+	out := make([]wrule, len(rs))
+	for i, r := range rs {
+		out[i] = append(wrule(nil), r...)
+	}
+	return out
+}
+
+func zeroRule(mod int) wrule {
+	var out wrule
+	for _, f := range wireSchemas[mod] {
+		switch f.Ty {
+		case tStr:
+			out = append(out, wval{})
+		case tInt:
+			out = append(out, wval{I: big.NewInt(0)})
+		case tNum:
+			out = append(out, wval{Lit: "0"})
+		default:
+			out = append(out, wval{})
+		}
+	}
+	return out
+}
+
+// ---- running -------------------------------------------------------------------------------------------
+
+func observeWire(m *module, mod int, payload []byte) (o wobs, ptrs []interface{}) {
+	defer func() {
+		if r := recover(); r != nil {
+			o = wobs{Class: "panic"}
+		}
+	}()
+	v, err := m.parser(payload)
+	if err != nil {
+		return wobs{Class: "err"}, nil
+	}
+	if v == nil {
+		return wobs{Class: "nil"}, nil
+	}
+	es, isNil, ok := m.elems(v)
+	if !ok {
+		return wobs{Class: "panic"}, nil
+	}
+	o = wobs{Class: "val", IsNil: isNil}
+	for _, e := range es {
+		if e == nil {
+			o.Rules = append(o.Rules, nil)
+			o.Shown = append(o.Shown, "nil")
+		} else {
+			fs := fieldsOf(mod, e)
+			o.Rules = append(o.Rules, fs)
+			o.Shown = append(o.Shown, fmt.Sprint(fs))
+		}
+	}
+	return o, es
+}
+
+// expectedList: the described rules with the null elements spliced in (nil entries)
+func expectedList(c wcase) []wrule {
+	var out []wrule
+	ri := 0
+	total := len(c.Rules) + len(c.Nils)
+	isNil := map[int]bool{}
+	for _, p := range c.Nils {
+		isNil[p] = true
+	}
+	for i := 0; i < total; i++ {
+		if isNil[i] {
+			out = append(out, nil)
+		} else {
+			out = append(out, c.Rules[ri])
+			ri++
+		}
+	}
+	return out
+}
+
+func monitorWire(c wcase, m *module, o wobs, rep *emit.Report) {
+	fail := func(clause, sig, detail string) {
+		rep.Fail(c.ID, clause, sig, fmt.Sprintf("%s parser, stream %s %s, payload %q: %s", c.Module, c.Stream, c.Variant, clip(c.Payload), detail), c)
+	}
+	if o.Class == "panic" {
+		fail("C18_wire_roundtrip", "parser-panicked-or-returned-foreign-type", "the parser panicked or returned a value that is not its module's rule slice")
+		return
+	}
+	switch c.Expect {
+	case "err":
+		if o.Class == "nil" {
+			fail("C18_reject_keeps", "undecodable-payload-classified-empty", "the parser returned (nil, nil) for an undecodable payload: the handler would clear the rules")
+		} else if o.Class != "err" {
+			fail("C18_reject_keeps", "undecodable-payload-decoded", fmt.Sprintf("the parser returned %d rules for an undecodable payload", len(o.Rules)))
+		}
+	case "nil":
+		if o.Class != "nil" {
+			fail("C18_empty_clears", "empty-payload-not-classified-empty", "the parser did not return (nil, nil) for the empty payload (class "+o.Class+")")
+		}
+	case "nilslice":
+		if o.Class != "val" || len(o.Rules) != 0 {
+			fail("C18_wire_roundtrip", "null-document-not-an-empty-rule-list", "class "+o.Class)
+		}
+	case "rules":
+		want := expectedList(c)
+		if o.Class != "val" {
+			fail("C18_wire_roundtrip", "wire-rule-list-not-decoded", fmt.Sprintf("a payload describing %d rules was classified %s", len(want), o.Class))
+			return
+		}
+		if len(o.Rules) != len(want) {
+			fail("C18_wire_roundtrip", "wire-rule-count-differs", fmt.Sprintf("described %d elements, decoded %d", len(want), len(o.Rules)))
+			return
+		}
+		for i, w := range want {
+			if (w == nil) != (o.Rules[i] == nil) {
+				fail("C18_wire_roundtrip", "wire-null-element-not-a-nil-rule", fmt.Sprintf("element %d", i))
+				return
+			}
+			if w == nil {
+				continue
+			}
+			exp := expectedFields(c.Mod, w)
+			for j, f := range wireSchemas[c.Mod] {
+				if !gvalEq(exp[j], o.Rules[i][j]) {
+					fail("C18_wire_roundtrip", "wire-field-not-as-described", fmt.Sprintf("rule %d field %q: described %v, decoded %v", i, f.Name, exp[j], o.Rules[i][j]))
+					return
+				}
+			}
+		}
+	}
+}
+
+// monitorApplied: C18_applied_exactly o C18_wire_roundtrip on the implementation — deliver the
+// payload to a real handler over the real rule manager; exactly the valid described rules are in force
+func monitorApplied(c wcase, m *module, rep *emit.Report) {
+	if err := m.clear(); err != nil {
+		panic(err)
+	}
+	h := datasource.NewDefaultPropertyHandler(m.parser, m.updater)
+	ret := safeHandle(h, []byte(c.Payload))
+	got := inForceFPs(m)
+	if err := m.clear(); err != nil {
+		panic(err)
+	}
+	want := []string{}
+	for _, w := range expectedList(c) {
+		if w == nil {
+			continue
+		}
+		g := goRule(c.Mod, w, false)
+		if m.valid(g) {
+			want = append(want, fingerprint(g))
+		}
+	}
+	sort.Strings(want)
+	if ret != 0 {
+		rep.Fail(c.ID, "C18_wire_applied", "wire-payload-rejected-by-handler", fmt.Sprintf("%s: Handle returned %d for a payload describing %d rules: %q", c.Module, ret, len(c.Rules), clip(c.Payload)), c)
+		return
+	}
+	if !sameStrings(got, want) {
+		rep.Fail(c.ID, "C18_wire_applied", "wire-payload-valid-rules-not-in-force", fmt.Sprintf("%s: in force %v, the valid described rules are %v", c.Module, got, want), c)
+	}
+}
+
+func coqWire(c wcase, o wobs) string {
+	b := []byte(c.Payload)
+	enc := "None"
+	if c.encOf {
+		var rs []string
+		for _, r := range c.Rules {
+			rs = append(rs, coqWrule(c.Mod, r))
+		}
+		enc = "(Some " + emit.List(rs) + ")"
+	}
+	ft, it := oracleTables(b)
+	return fmt.Sprintf("WCase %d %d %s %s %s %s %s %s", c.ID, c.Mod, coqBytes(b), emit.B(inSubset(b)), enc, ft, it, coqObs(o))
+}
+
+// goSchema reads json tags and field types of a Go wire struct by reflection
+func goSchema(t reflect.Type) string {
+	var fs []string
+	for i := 0; i < t.NumField(); i++ {
+		f := t.Field(i)
+		name := f.Name
+		if tag, ok := f.Tag.Lookup("json"); ok {
+			if n := strings.Split(tag, ",")[0]; n == "-" {
+				continue
+			} else if n != "" {
+				name = n
+			}
+		}
+		var ty string
+		switch f.Type.Kind() {
+		case reflect.String:
+			ty = "TStr"
+		case reflect.Int32:
+			ty = "i32"
+		case reflect.Uint32:
+			ty = "u32"
+		case reflect.Int64, reflect.Int:
+			ty = "i64"
+		case reflect.Uint64, reflect.Uint:
+			ty = "u64"
+		case reflect.Float64:
+			ty = "TNum"
+		case reflect.Slice:
+			ty = "TItems"
+		default:
+			ty = "TStr (* unexpected Go kind " + f.Type.Kind().String() + " *)"
+			name = name + "?"
+		}
+		fs = append(fs, emit.Tuple(coqBytes([]byte(name)), ty))
+	}
+	return emit.List(fs)
+}
+
+func runWire(a cli.Args, root *rng.R, rep *emit.Report, sh *emit.Shards, only int) {
+	ms := modules()
+	n := a.Pick(0, 300, 4000)
+	if a.Search {
+		n *= 5
+	}
+	runOne := func(id int, corr bool) {
+		c := genWire(root.Fork(uint64(id)), id)
+		if !utf8ish(c.Payload) {
+			c.Hex = fmt.Sprintf("%x", c.Payload)
+		}
+		m := ms[c.Mod]
+		o, _ := observeWire(m, c.Mod, []byte(c.Payload))
+		rep.Evaluations++
+		monitorWire(c, m, o, rep)
+		if c.Expect == "rules" {
+			monitorApplied(c, m, rep)
+		}
+		rep.Count("wire_stream_"+c.Stream, 1)
+		rep.Count("wire_module_"+c.Module, 1)
+		rep.Count("wire_class_"+o.Class, 1)
+		if c.Variant != "" {
+			rep.Count("wire_variant_"+c.Variant, 1)
+		}
+		if !inSubset([]byte(c.Payload)) {
+			rep.Count("wire_outside_model_subset_not_compared", 1)
+		}
+		rep.Count("wire_rules_described", len(c.Rules))
+		if corr && sh != nil {
+			sh.Add(c.ID, coqWire(c, o))
+			rep.CorrCases++
+			rep.CaseInputs[strconv.Itoa(c.ID)] = c
+		}
+		if only >= 0 {
+			out, _ := json.MarshalIndent(map[string]interface{}{"input": c, "observed": o, "in_model_subset": inSubset([]byte(c.Payload)), "coq": coqWire(c, o)}, "", " ")
+			fmt.Println(string(out))
+		}
+	}
+	if only >= 0 {
+		if only >= wireBase+90000 {
+			return
+		}
+		runOne(only, false)
+		return
+	}
+	nCorr := n
+	if a.Search {
+		nCorr = 0
+	}
+	for i := 0; i < n; i++ {
+		runOne(wireBase+i, i < nCorr)
+	}
+	// the Go wire structs' json tags and field types against the model's schemas
+	if sh != nil {
+		types := []reflect.Type{reflect.TypeOf(flow.Rule{}), reflect.TypeOf(system.Rule{}), reflect.TypeOf(cb.Rule{}),
+			reflect.TypeOf(datasource.HotspotRule{}), reflect.TypeOf(isolation.Rule{}), reflect.TypeOf(datasource.SpecificValue{})}
+		for k, t := range types {
+			id := wireBase + 90000 + k
+			sh.Add(id, fmt.Sprintf("SCase %d %d %s", id, k, goSchema(t)))
+			rep.CorrCases++
+			rep.CaseInputs[strconv.Itoa(id)] = map[string]string{"wire_struct": t.String(), "go_schema": goSchema(t)}
+		}
+	}
+}
+
+func utf8ish(s string) bool {
+	for i := 0; i < len(s); i++ {
+		if s[i] >= 0x7f || (s[i] < 32 && s[i] != '\n' && s[i] != '\t' && s[i] != '\r') {
+			return false
+		}
+	}
+	return true
+}
